@@ -29,15 +29,22 @@ TExec  == /\ Is("Exec") /\ Adv /\ Idle /\ UNCHANGED prog
              ELSE UNCHANGED executed
 TResult == Is("Result") /\ Ev.v = Strict(prog) /\ Adv /\ Idle /\ UNCHANGED <<prog, executed>>
 ChainWant(shape, n) == CASE shape = "mapped" -> n + 2 [] shape = "flatmapped" -> n + 10
-                         [] shape = "evenodd" -> 1 - (n % 2) [] OTHER -> n
+                         [] shape = "evenodd" -> 1 - (n % 2) [] shape = "foldright" -> 7 [] OTHER -> n
 ChainExecs(shape, n) == IF shape = "flatmapped" THEN n + 10 ELSE n
 TChain == /\ Is("Chain") /\ Adv /\ Idle /\ UNCHANGED <<prog, executed>>
           /\ Ev.result = ChainWant(Ev.shape, Ev.n)
           /\ Ev.execs = ChainExecs(Ev.shape, Ev.n)
-          /\ (Ev.n > 0 => Ev.maxd - Ev.mind <= 2)        \* stack depth independent of the recursion depth
+          \* stack depth independent of the recursion depth (the first cells of a list fold are entered through a few more frames
+          \* than the later ones: a constant, not a function of n)
+          /\ (Ev.n > 0 => Ev.maxd - Ev.mind <= (IF Ev.shape = "foldright" THEN 24 ELSE 2))
+\* an Eval extended twice (three times) yields independent values: each extension applies its own function to the shared base
+TShare == /\ Is("Share") /\ Adv /\ Idle /\ UNCHANGED <<prog, executed>>
+          /\ Ev.rx = 5 + Ev.k + 100 /\ Ev.ry = 5 + Ev.k + 1000 /\ Ev.rz = 5 + Ev.k + 10000
+\* run-once also when the single run panics: asking again does not run the deferred computation a second time
+TPanicOnce == Is("PanicOnce") /\ Ev.execs = 1 /\ Adv /\ Idle /\ UNCHANGED <<prog, executed>>
 TConc  == Is("Conc") /\ Ev.execs = 1 /\ Ev.distinct = 1 /\ Adv /\ Idle /\ UNCHANGED <<prog, executed>>
 TEnd   == Is("End") /\ Adv /\ Idle /\ UNCHANGED <<prog, executed>>
-TNext  == TReset \/ TExec \/ TResult \/ TChain \/ TConc \/ TEnd
+TNext  == TReset \/ TExec \/ TResult \/ TChain \/ TShare \/ TPanicOnce \/ TConc \/ TEnd
 TSpec  == TInit /\ [][TNext]_tvars
 
 HighWater == TLCSet(1, IF TLCGet(1) < l THEN l ELSE TLCGet(1))
